@@ -130,6 +130,14 @@ pub fn run(ctx: &mut Ctx) {
                 ("if-cond", op("if", vec![e.clone(), json!("T"), json!("F")])),
                 ("if-cond2", op("if", vec![json!(false), json!("X"), e.clone(), json!("T"), json!("F")])),
                 ("?:-cond", op("?:", vec![e.clone(), json!("T"), json!("F")])),
+                // every operand count of both spellings: conditions at the odd positions, a trailing else or none
+                ("?:-cond2", op("?:", vec![json!(false), json!("X"), e.clone(), json!("T"), json!("F")])),
+                ("?:-cond2:no-else", op("?:", vec![json!(false), json!("X"), e.clone(), json!("T")])),
+                ("if-cond2:no-else", op("if", vec![json!(0), json!("X"), e.clone(), json!("T")])),
+                ("?:-cond3:no-else", op("?:", vec![json!(""), json!("X"), json!([]), json!("Y"), e.clone(), json!("T")])),
+                ("if-cond:no-else", op("if", vec![e.clone(), json!("T")])),
+                ("?:-cond:no-else", op("?:", vec![e.clone(), json!("T")])),
+                ("?:-single", op("?:", vec![e.clone()])),
                 ("and", op("and", vec![e.clone(), json!("next")])),
                 ("or", op("or", vec![e.clone(), json!("next")])),
                 ("and-2", op("and", vec![json!(1), e.clone(), json!("next")])),
